@@ -108,3 +108,9 @@ Definition lift_cert_count (nmax kmax : nat) : nat :=
 
 Lemma lift_cert_4_3 : lift_cert 4 3 = true /\ lift_cert_count 4 3 = 60%nat.
 Proof. split; vm_compute; reflexivity. Qed.
+
+(* wide registers (seeded change C01-6): selected columns of op.lifted_matrix(n) against the specification's entry
+   formula.  The mirror [lifted] equals [lift_spec] for every valid index tuple (Props/C01.v, lift_impl_correct), so for
+   widths where multiplying the mirror's permutation matrices is too slow the comparison goes through the theorem. *)
+Definition lift_cols_eqb (g : gateapp GQr) (n : nat) (cols : list (nat * list GQ)) : bool :=
+  forallb (fun jc => lgeqb (map (fun i => lift_spec (g_mat g) (g_qs g) n i (fst jc)) (seq 0 (2 ^ n))) (snd jc)) cols.
